@@ -22,6 +22,9 @@ def build(u: Universe, tc: TypeCase, aval, route: str):
 
 
 def oracle(u: Universe, tc: TypeCase, aval: Dict[str, Any], route: str, tally: Tally) -> List[Fail]:
+    if route.endswith("@604"):
+        # the same type declared with PEP 604 / builtin-generic annotations (plugin option typing.310)
+        u, route = u.view604(), route[:-4]
     exp = av.normalize(u.schema, tc.msg, aval)
     cls = getattr(u.bp, tc.msg.name)
     fails: List[Fail] = []
@@ -76,11 +79,14 @@ def routes_fn(tc: TypeCase, aval) -> tuple:
         r = r + FRESH_ROUTES
     if lazy_variant(tc.msg, aval):
         r = r + ("lazy",)  # content placed below sub-messages that are only ever read
+    if tc.tag in ("T1", "KS", "TN", "REC"):
+        r = r + ("ctor@604", "setattr@604", "parse@604")
     return r
 
 
 def run(ctx: Ctx) -> None:
     u = get_universe(ctx.tier)
+    u.view604()  # built before the workers fork
     t = run_universe(ctx, u, oracle, routes_fn)
     ctx.coverage.update(
         states=t.n.get("cases", 0),
